@@ -1,6 +1,7 @@
 (* C11 -- fragmentation always progresses and partitions the PDU exactly. Pinned statements only. *)
 Require Import GSE.model.Base GSE.model.Types GSE.model.Ext GSE.model.Encap
   GSE.proofs.Tactics GSE.proofs.BaseLemmas GSE.proofs.EncapSpec GSE.proofs.EncapProps GSE.proofs.FragRun.
+Require Import GSE.proofs.ExtSpec GSE.proofs.ExtTrip GSE.proofs.ExtProps.
 Open Scope N_scope.
 #[local] Opaque pkt_complete pkt_first pkt_end pkt_inter.
 
@@ -17,6 +18,24 @@ Proof.
   destruct Sh as [e|s1 l Hc Hf Hg|s1 l pe Hc Hpe Hb Hlt Hbig]; try discriminate E.
   injection E as <- <- <- <-. exists l. cbn [cf_id cf_len]. repeat split; auto.
   rewrite takeN_app_eq; [reflexivity|]. rewrite lenN_pkt_first, lenN_takeN. lia.
+Qed.
+
+#[local] Opaque pkt_first_x.
+(* the same for a first fragment of encap_ext: the context counts exactly the PDU bytes carried after the extension area *)
+Theorem c11_first_ctx_ext : forall crc s pdu fid pt lab buf exts s' buf' n c, enc_wf s -> label_wf lab -> Forall ext_built exts ->
+  encap_ext crc s pdu fid pt lab buf exts = Ret (s', buf', inl (Fragmented n c)) ->
+  let l := snd (check_reuse_hl s lab) in
+  let chain := chain_bytes exts (pt <? 256) pt in
+  cf_id c = fid /\ cf_len c < lenN pdu /\
+  takeN n buf' = pkt_first_x l fid (lenN pdu + 2 + lenN (label_bytes l)) (first_id exts pt) chain (takeN (cf_len c) pdu) /\
+  n = 7 + lenN (label_bytes l) + lenN chain + cf_len c.
+Proof.
+  intros crc s pdu fid pt lab buf exts s' buf' n c Hs Hw Hx H.
+  assert (Hxw : Forall ext_wf exts) by (revert Hx; apply Forall_impl; exact ext_built_wf).
+  rewrite encap_ext_spec in H by assumption. injection H as H.
+  destruct (encap_ext_fragmented crc _ _ _ _ _ _ _ _ _ _ _ Hw H) as (_ & _ & _ & Hb' & Hc & Hn & Hnb & Hlt & _).
+  cbv zeta in *. split; [rewrite Hc; reflexivity|]. split; [exact Hlt|]. split; [|exact Hn].
+  rewrite Hb'. apply takeN_app_eq. rewrite (lenN_pkt_first_x crc), lenN_takeN. lia.
 Qed.
 
 (* each successful continuation either emits the final CRC-bearing packet or writes at least one payload byte and
@@ -74,6 +93,7 @@ Example c11_nonvacuous :
 Proof. vm_compute. reflexivity. Qed.
 
 Print Assumptions c11_first_ctx.
+Print Assumptions c11_first_ctx_ext.
 Print Assumptions c11_step.
 Print Assumptions c11_partition.
 Print Assumptions c11_bound.
